@@ -144,7 +144,7 @@ fn graph_from(shape : &str, mut rules : Vec<GRule>, rng : &mut Rng) -> Graph
 }
 
 pub const SHAPES : &[&str] = &[
-    "chain", "diamond", "triangle", "fan_in", "fan_out", "components", "twins", "second_target", "wide_multi", "k4",
+    "chain", "diamond", "triangle", "fan_in", "fan_out", "components", "twins", "second_target", "wide_multi", "k4", "copies",
 ];
 
 pub fn preset_graph(rng : &mut Rng, shape : &str) -> Graph
@@ -265,6 +265,27 @@ pub fn preset_graph(rng : &mut Rng, shape : &str) -> Graph
             let mut g = graph_from(shape, rules, rng);
             g.shape = "twins".to_string();
             g
+        },
+        "copies" =>
+        {
+            // verbatim copies of distinct leaves (like `cp`), each with a dependent: the same bytes can travel between
+            // paths when leaves are swapped or reverted, so one rule's old output is another rule's current one
+            let count = rng.range(2, 3);
+            let n = names(rng, 2 * count);
+            let l = leafs(rng, count);
+            let mut rules = vec![];
+            for i in 0..count
+            {
+                let mut r = make_rule(rng, vec![n[i].clone()], vec![l[i].clone()], &mut salt);
+                r.outs[0].raw = true;
+                r.outs[0].mask = 1;
+                rules.push(r);
+                if rng.chance(3, 4)
+                {
+                    rules.push(make_rule(rng, vec![n[count + i].clone()], vec![n[i].clone()], &mut salt));
+                }
+            }
+            graph_from(shape, rules, rng)
         },
         "second_target" =>
         {
